@@ -11,7 +11,7 @@ package centrifuge
 // broker operations run at *gates*: before each client request, just before each broker read the server
 // performs, and just after it (still inside the read call) - i.e. between any two reads of the protocol.
 //
-//   sc size=N sttl=MS kttl=MS page=L slim=L tlim=N cto=MS flt=0|1 obs=0|1 rec=none|live|stream g=<ops>/<ops>/… off=<ops> live=<ops>
+//   sc size=N sttl=MS kttl=MS page=L slim=L tlim=N cto=MS flt=0|1 obs=0|1 sf=0|1 rec=none|live|stream g=<ops>/<ops>/… off=<ops> live=<ops>
 //     ops = comma separated: Pk (publish key k), Rk (remove key k), A<ms> (advance virtual time), C (clear), - (nothing)
 //     g    gate scripts consumed in order of gate occurrence (missing = nothing)
 //     off  operations while the client is unsubscribed (between first session and recovery)
@@ -148,7 +148,38 @@ func (b *verifC22Broker) RegisterEventHandler(h BrokerEventHandler) error {
 	return b.MemoryMapBroker.RegisterEventHandler(&verifC22Handler{inner: h, s: b.s})
 }
 
+// verifC22Twin lines two concurrent subscribers up on the same state page (Config.UseSingleFlight): the first
+// ReadState parks until released, so that the second subscriber's identical read joins the same singleflight
+// call; the stream-position reads that follow wait for each other.
+type verifC22Twin struct {
+	mu        sync.Mutex
+	stateRead int
+	release   chan struct{}
+	arrived   int
+	bothHere  chan struct{}
+	closed    bool
+}
+
+func (t *verifC22Twin) openBarrier() {
+	t.mu.Lock()
+	if !t.closed {
+		t.closed = true
+		close(t.bothHere)
+	}
+	t.mu.Unlock()
+}
+
 func (b *verifC22Broker) ReadState(ctx context.Context, ch string, opts MapReadStateOptions) (MapStateResult, error) {
+	if tw := b.s.twin; tw != nil && ch == verifC22Ch {
+		tw.mu.Lock()
+		tw.stateRead++
+		first := tw.stateRead == 1
+		tw.mu.Unlock()
+		if first {
+			<-tw.release
+		}
+		return b.MemoryMapBroker.ReadState(ctx, ch, opts)
+	}
 	if !b.s.gated || ch != verifC22Ch {
 		return b.MemoryMapBroker.ReadState(ctx, ch, opts)
 	}
@@ -162,6 +193,19 @@ func (b *verifC22Broker) ReadState(ctx context.Context, ch string, opts MapReadS
 }
 
 func (b *verifC22Broker) ReadStream(ctx context.Context, ch string, opts MapReadStreamOptions) (MapStreamResult, error) {
+	if tw := b.s.twin; tw != nil && ch == verifC22Ch {
+		if opts.Filter.Since == nil && opts.Filter.Limit == 0 {
+			tw.mu.Lock()
+			tw.arrived++
+			both := tw.arrived >= 2
+			tw.mu.Unlock()
+			if both {
+				tw.openBarrier()
+			}
+			<-tw.bothHere
+		}
+		return b.MemoryMapBroker.ReadStream(ctx, ch, opts)
+	}
 	if !b.s.gated || ch != verifC22Ch {
 		return b.MemoryMapBroker.ReadStream(ctx, ch, opts)
 	}
@@ -200,6 +244,7 @@ type verifC22Scn struct {
 	snapTop    uint64
 	flt        bool
 	fltVal     string // tag value the current client's filter admits ("1" for the protocol client)
+	twin       *verifC22Twin
 	noGates    bool   // observers subscribe without consuming gate scripts / emitting tokens
 	mute       bool
 }
@@ -677,7 +722,7 @@ func verifC22Scenario(t *testing.T, line string) (res string) {
 		if kttl == 0 {
 			opts.Mode = MapModePersistent
 		}
-		node, err := New(Config{LogLevel: LogLevelNone,
+		node, err := New(Config{LogLevel: LogLevelNone, UseSingleFlight: kv["sf"] == "1",
 			Map: MapConfig{GetMapChannelOptions: func(string) MapChannelOptions { return opts }}})
 		if err != nil {
 			out = "harness-error new-node"
@@ -798,6 +843,60 @@ func verifC22Scenario(t *testing.T, line string) (res string) {
 				s.collect(0, cl)
 				s.session(cl, int32(page), int32(slim), rec)
 				sessions = 2
+			}
+		}
+		if kv["sf"] == "1" {
+			// two more protocol clients (one with the tags filter, one without) read the same state page
+			// concurrently through the node's singleflight group, then stay as live observers
+			var twins []*verifC22Obs
+			for _, spec := range []struct {
+				flt bool
+				val string
+			}{{true, "1"}, {false, ""}} {
+				otr := &verifC22Transport{}
+				oc, ocl, err := NewClient(ctx, node, otr)
+				if err != nil {
+					continue
+				}
+				o := &verifC22Obs{client: oc, closeFn: ocl, tr: otr, cmdID: 2, ref: &verifC22Ref{m: map[string]int{}, first: true, phase: "state"}, flt: spec.flt, fltVal: spec.val}
+				oc.HandleCommand(&protocol.Command{Id: 1, Connect: &protocol.ConnectRequest{}}, 0)
+				synctest.Wait()
+				otr.mu.Lock()
+				o.cursor = len(otr.frames)
+				otr.mu.Unlock()
+				twins = append(twins, o)
+			}
+			if len(twins) == 2 {
+				s.tok("tw") // the channel exists from here on (the twins' reads create it if it was dropped)
+				tw := &verifC22Twin{release: make(chan struct{}), bothHere: make(chan struct{})}
+				s.twin = tw
+				done := make(chan struct{}, 2)
+				for _, o := range twins {
+					req := &protocol.SubscribeRequest{Channel: verifC22Ch, Type: int32(SubscriptionTypeMap), Phase: MapPhaseState, Limit: 100}
+					if o.flt {
+						req.Tf = &protocol.FilterNode{Op: "", Key: "t", Cmp: "eq", Val: o.fltVal}
+					}
+					oc := o.client
+					go func() {
+						oc.HandleCommand(&protocol.Command{Id: 2, Subscribe: req}, 0)
+						done <- struct{}{}
+					}()
+					synctest.Wait() // the first parks inside ReadState, the second joins its singleflight call
+				}
+				close(tw.release)
+				synctest.Wait()
+				tw.openBarrier()
+				<-done
+				<-done
+				synctest.Wait()
+				s.twin = nil
+				for _, o := range twins {
+					s.with(o, func() { s.collect(2, o.ref) })
+					if o.ref.phase != "live" {
+						o.ref.told = true // did not go live in one step: not judged as a live observer
+					}
+					observers = append(observers, o)
+				}
 			}
 		}
 		for _, op := range liveOps {
